@@ -118,6 +118,21 @@ func explore(p *Program, cfg *HarnessCfg, workers int, deadline time.Time) (*Run
 			active++
 			mu.Unlock()
 
+			if solver.dead {
+				solver.Close()
+				ns, err := newSolver("z3", cfg.SolverTimeoutMS)
+				if err != nil {
+					mu.Lock()
+					rr.Inconclusive["cannot restart solver: "+err.Error()]++
+					stop = true
+					active--
+					cond.Broadcast()
+					mu.Unlock()
+					return
+				}
+				ns.queries, ns.satN, ns.unsatN, ns.unkN, ns.errN, ns.time = solver.queries, solver.satN, solver.unsatN, solver.unkN, solver.errN, solver.time
+				solver = ns
+			}
 			res := runPath(p, cfg, fn, solver, it.prefix)
 
 			mu.Lock()
